@@ -54,6 +54,18 @@ CHECKS = {
         "MQTT/webhook injected at the hand-over boundary (fake broker, direct handler call); exact-topic matching; lineage "
         "required only for occurrences that carry a context; recordings sampled.",
         "DESIGN.md section 5 C08"),
+    "C15": (
+        "TLC model checking of spec/WaitUntil.tla (one-shot trigger instance with explicit resources; every exit through "
+        "Release; mechanism = declarative fold) + trace validation of recorded task.wait_until calls incl. cancellation at "
+        "arbitrary instants against spec/WaitTrace.tla (shared operators in WaitCore.tla)",
+        "task.wait_until is specified as a one-shot instance of the trigger pipeline with the resources it creates; TLC "
+        "enumerates all argument combinations x timed histories x cancellation instants up to the bound and checks that the "
+        "outcome is the first qualifying condition after the call and that every exit path releases everything.  Real calls "
+        "(both subsystems) are recorded with their outcome, time, returned dictionary and the resources left behind "
+        "(State.notify queues, bus listeners, loop timers, pending tasks vs. a baseline) and decided by TLC.",
+        "Grid avoiding ties (events at even seconds, cancellation at half seconds, timers at odd seconds); hold timing is C05's; "
+        "MQTT/webhook conditions not generated here (C08 covers their delivery); recordings sampled.",
+        "DESIGN.md section 5 C15"),
 }
 
 NOT_YET = {
